@@ -159,7 +159,7 @@ class Normalizer:
         helper, or wrapped in zip / enumerate / list ...) restricts what the outer comprehension sees."""
         if it is None or depth > MAX_DEPTH:
             return []
-        hr = self.helper_return(it)
+        hr = self.helper_return(it, node, bound, depth)
         if hr is not None:
             sub, rv, rn = hr
             return sub.iter_conds(rv, rn, {}, depth + 1)
@@ -310,10 +310,16 @@ class Normalizer:
             return '?'
         X = lambda x: self.expr(x, node, bound, depth + 1)  # noqa: E731
         p = list(path)
-        hr = self.helper_return(it)
+        hr = self.helper_return(it, node, bound, depth)
         if hr is not None and depth < MAX_DEPTH:
             sub, rv, rn = hr
             return sub.iter_elem(rv, path, rn, {}, depth + 1)
+        if isinstance(it, ast.Name) and it.id not in bound and self.rd.is_local(it.id) and depth < MAX_DEPTH:
+            # a local bound once to the iterable (`positional = _init_converters(...)`): iterate what it was bound to
+            defs_ = self.rd.at(node, it.id)
+            if len(defs_) == 1 and defs_[0].kind == 'assign' and defs_[0].value is not None and not defs_[0].path \
+                    and isinstance(defs_[0].value, (ast.Call, ast.GeneratorExp)):
+                return self.iter_elem(defs_[0].value, path, defs_[0].node, {}, depth + 1)
         if isinstance(it, ast.Call):
             fn = it.func
             if isinstance(fn, ast.Attribute) and not it.args:
@@ -423,8 +429,15 @@ class Normalizer:
                 return inl
         # a closure defined once in this function, one `return <expr>` long: its body with the arguments substituted; free variables
         # are read in the enclosing function's own terms (its parameters keep their names)
-        if fn.startswith('FUNC:') and isinstance(e.func, ast.Name) and not e.keywords and not any(isinstance(a, ast.Starred) for a in e.args) and depth < 6:
-            g = self.model.functions.get(f"{self.func.qualname}.{e.func.id}")
+        if (fn.startswith('FUNC:') or fn.startswith('FREE:')) and isinstance(e.func, ast.Name) and not e.keywords \
+                and not any(isinstance(a, ast.Starred) for a in e.args) and depth < 6:
+            g = None
+            scope_: t.Optional[FuncInfo] = self.func
+            while scope_ is not None and g is None:       # the closure may be a sibling defined in an enclosing function
+                g = self.model.functions.get(f"{scope_.qualname}.{e.func.id}")
+                scope_ = scope_.parent
+            if g is self.func:
+                g = None
             if g is not None and isinstance(g.node, ast.FunctionDef) and len(g.params) == len(e.args) and not g.decorators:
                 body = [s_ for s_ in g.node.body if not (isinstance(s_, ast.Expr) and isinstance(s_.value, ast.Constant))]
                 if len(body) == 1 and isinstance(body[0], ast.Return) and body[0].value is not None:
@@ -464,7 +477,32 @@ class Normalizer:
         names = sorted({_canon_class(self.expr(x, node, bound, depth + 1)) for x in elts})
         return '{' + ', '.join(names) + '}'
 
-    def helper_return(self, e: t.Optional[ast.AST]) -> t.Optional[t.Tuple['Normalizer', ast.expr, Node]]:
+    def helper_return(self, e: t.Optional[ast.AST], node: t.Optional[Node] = None, bound: t.Optional[t.Dict[str, str]] = None,
+                      depth: int = 0) -> t.Optional[t.Tuple['Normalizer', ast.expr, Node]]:
+        got = self._helper_return_method(e)
+        if got is not None or node is None:
+            return got
+        # a private module-level function of one `return <expr>`, its parameters named by the caller's arguments
+        if not (isinstance(e, ast.Call) and not e.keywords and not any(isinstance(a, ast.Starred) for a in e.args)):
+            return None
+        q = self.model.resolve(e.func, self.func.module, self.func if isinstance(self.func.node, ast.FunctionDef) else None)
+        f = self.model.functions.get(q or '')
+        if f is None or f is self.func or f.cls is not None or f.parent is not None or not isinstance(f.node, ast.FunctionDef) \
+                or not f.name.startswith('_') or len(f.params) != len(e.args) or f.decorators:
+            return None
+        body = [st for st in f.node.body if not (isinstance(st, ast.Expr) and isinstance(st.value, ast.Constant))]
+        if len(body) != 1 or not isinstance(body[0], ast.Return) or not isinstance(body[0].value, (ast.GeneratorExp, ast.ListComp, ast.Call)):
+            return None
+        from .cfg import cfg_of
+        sub_cfg = cfg_of(self.model, f)
+        pm = {p_: self.expr(a, node, bound or {}, depth + 1) for p_, a in zip(f.params, e.args)}
+        sub = Normalizer(self.model, f, sub_cfg, param_map=pm, inline_unique_methods=self.inline_unique_methods)
+        rn = [n for n in sub_cfg.nodes if n.kind == 'return' and n.ast is not None]
+        if len(rn) != 1:
+            return None
+        return sub, body[0].value, rn[0]
+
+    def _helper_return_method(self, e: t.Optional[ast.AST]) -> t.Optional[t.Tuple['Normalizer', ast.expr, Node]]:
         """``self.m()`` where ``m`` is a zero-argument helper of the same class consisting of one ``return <expr>``:
         (normaliser of the helper, the returned expression, its node).  Lets loop provenance and comprehension
         guards look through helpers such as ``def _init_converters(self): return (c for f, c in zip(...) if f.init)``."""
